@@ -4,7 +4,7 @@
    All statements are for every ring size 1 <= s <= 2^31, every history, every byte value. *)
 From Coq Require Import ZArith List Bool Lia.
 From Zix Require Import RingSpec RingModel RingProofsNpot RingProofsBase RingProofs RingProofsSim
-  RingProofsHist RingProofsTx RingProofsFifo.
+  RingProofsHist RingProofsTx RingProofsTxEq RingProofsFifo.
 Import ListNotations.
 Local Open Scope Z_scope.
 
@@ -164,6 +164,17 @@ Theorem ring_tx_atomic :
 Proof. intros rg parts H. exact (tx_lemma rg parts H). Qed.
 Print Assumptions ring_tx_atomic.
 
+(* ... and not only the stored bytes and heads: the ENTIRE ring state after commit (both heads, size,
+   mask, every byte of the buffer) equals the state after the single write of the accepted bytes *)
+Theorem ring_tx_commit_is_write :
+  forall rg parts, inv rg ->
+    let acc := amend_accepted (ring_write_space rg) 0 parts in
+    let rg1 := fst (fst (amend_all rg (ring_begin_write rg) parts)) in
+    let t1 := snd (fst (amend_all rg (ring_begin_write rg) parts)) in
+    fst (ring_commit_write rg1 t1) = fst (ring_write rg acc).
+Proof. exact tx_state_eq. Qed.
+Print Assumptions ring_tx_commit_is_write.
+
 (* when everything fits: all SUCCESS and commit == write (b1 ++ ... ++ bk) *)
 Corollary ring_tx_all_fit :
   forall rg parts, inv rg -> len (concat parts) <= ring_write_space rg ->
@@ -200,6 +211,23 @@ Theorem ring_fifo :
       run_in (spec_capacity s) spec_init h = read_data h outs ++ abs (fst st').
 Proof. exact fifo_lemma. Qed.
 Print Assumptions ring_fifo.
+
+(* the same with skips: what left the queue (read or skipped, as the queue spec accounts it),
+   followed by what is stored, is what went in *)
+Theorem ring_fifo_with_skip :
+  forall s junk h s' outs, 1 <= s <= 2 ^ 31 ->
+    spec_run (spec_capacity s) spec_init h = Some (s', outs) ->
+    existsb is_reset h = false ->
+    exists st', ring_run (ring_init s junk) h = (st', outs) /\
+      run_in (spec_capacity s) spec_init h = run_out (spec_capacity s) spec_init h ++ abs (fst st').
+Proof.
+  intros s junk h s' outs Hs Hrun Hr.
+  destruct (R_run _ h _ _ _ _ (R_init s junk Hs) Hrun) as (st' & Eq & (_ & _ & _ & Ha & _)).
+  exists st'. split; [exact Eq|].
+  pose proof (run_balance _ _ _ _ _ Hrun Hr) as B. cbn [spec_init sq app] in B.
+  now rewrite B, Ha.
+Qed.
+Print Assumptions ring_fifo_with_skip.
 
 (* ------------------------------------------------------------------ non-vacuity *)
 
